@@ -77,6 +77,7 @@ func missedLookupEdge(b *ssa.BasicBlock, si int, f *types.Var, base ssa.Value, k
 
 func ruleNAM1(c *Ctx) {
 	p := c.P
+	nam1EveryParsedEntry(c)
 	for _, spec := range []struct{ typ, method, field string }{{"KnowledgeBase", "AddRuleEntry", "RuleEntries"}, {"Grl", "ReceiveRuleEntry", "RuleEntries"}} {
 		fn := p.Method("ast", spec.typ, spec.method)
 		f := p.Field("ast", spec.typ, spec.field)
@@ -474,4 +475,52 @@ func (c *Ctx) escapedBy(v ssa.Value, sep string) bool {
 	}
 	esc := strings.TrimSuffix(to, sep)
 	return m[esc] == esc+esc && !strings.Contains(esc, sep)
+}
+
+
+// nam1EveryParsedEntry: the listener hands every rule entry of the parsed text to KnowledgeBase.AddRuleEntry, which is
+// where a name that is taken becomes an error. A filter in front of that call (same text, same salience, ...) turns a
+// duplicate into silent acceptance of the text.
+func nam1EveryParsedEntry(c *Ctx) {
+	p := c.P
+	fn := p.Method("antlr", "GruleV3ParserListener", "ExitGrl")
+	add := p.Method("ast", "KnowledgeBase", "AddRuleEntry")
+	entriesF := p.Field("ast", "Grl", "RuleEntries")
+	if fn == nil || add == nil || entriesF == nil {
+		c.AnchorLost("(*antlr.GruleV3ParserListener).ExitGrl / (*ast.KnowledgeBase).AddRuleEntry")
+		return
+	}
+	construct := "ExitGrl / every parsed rule entry is handed to KnowledgeBase.AddRuleEntry"
+	ok, why := false, "no loop over Grl.RuleEntries that calls AddRuleEntry with its element"
+	loops := naturalLoops(fn)
+	for _, l := range loops {
+		x := rangeOperand(l)
+		if x == nil {
+			continue
+		}
+		if f, _ := fieldLoad(x); f != entriesF {
+			continue
+		}
+		for b := range l.Blocks {
+			for _, in := range b.Instrs {
+				call, isCall := in.(ssa.CallInstruction)
+				if !isCall || call.Common().StaticCallee() != add || len(call.Common().Args) < 2 {
+					continue
+				}
+				if !derivesFrom(call.Common().Args[1], func(v ssa.Value) bool { return isRangeValueOf(v, l) || isIndexOfRanged(v, x) }) {
+					continue
+				}
+				ok, why = true, ""
+				if !passesOnEveryIteration(l, in) {
+					ok, why = false, "an entry of the parsed text can be passed over without the AddRuleEntry call: a rule whose name is taken is then accepted silently instead of being reported as a duplicate (BuildRuleFromResource returns nil, the older rule stays in force)"
+				}
+				for _, ex := range l.Exits() {
+					if ex[0].(*ssa.BasicBlock) != l.Header {
+						ok, why = false, "the loop over the parsed entries is left before the last entry"
+					}
+				}
+			}
+		}
+	}
+	c.Check(ok, construct, p.Pos(fn.Pos()), "loop over Grl.RuleEntries, the call on every iteration, left only when exhausted", why)
 }
